@@ -14,7 +14,7 @@ RULE = ('random interleavings (8-30 operations quick, 12-56 thorough, 1-4 instan
         '(treadmill.monitor.Monitor.run with MonitorContainerCleanup) as a restartable actor that re-reads the '
         'tombstone directory at every start, s6 control commands (svscan/svc) failing with CalledProcessError at '
         'scripted points in the monitor actions and in AppCfgMgr._refresh_supervisor (= the manager dies and is '
-        'restarted), cleanup completing (real Cleanup.invoke) at arbitrary later points - or interrupted half-way (the removal fails after some files, the records that the container ended survive; the job is retried later) -, an instance placed right after the cache became ready whose own created event arrives only after its container ended and was handed to cleanup, manager restarts and node '
+        'restarted), cleanup completing (real Cleanup.invoke) at arbitrary later points - or interrupted half-way (the removal fails after some files, the records that the container ended survive; the job is retried later) -, a cache entry unlinked by the event manager between the listing of the cache and the look at the entry inside a synchronisation (the manager dies on the vanished file and is restarted), an instance placed right after the cache became ready whose own created event arrives only after its container ended and was handed to cleanup, manager restarts and node '
         'starts; the real appcfg.configure runs '
         'for every container. After every handler call and every actor step the listing of running/, cleanup/, '
         'apps/ (+ exitinfo|aborted|oom flags) and cache/ is evaluated: I1 <= 1 link per container, I3 finished or '
